@@ -62,6 +62,8 @@ ENGINES.append({"name": "disk", "path": "lib/eng_disk.py", "serves_properties": 
                 "kind_free_text": "LD_PRELOAD recorder of file mutations; offline reconstruction of every process-crash and sampled power-loss directory; real recovery (open, second open, verify, doctor, read-only) on each; crash events validated by TLC against Mv2Core (TCrash)"})
 ENGINES.append({"name": "query", "path": "lib/eng_query.py", "serves_properties": ["C08", "C09", "C10", "C11", "C12", "C13", "C16", "C28", "C40"],
                 "kind_free_text": "seeded corpora and query batteries on the real Memvid in six phases (pre-commit, committed, after deletes/updates, reopened rw/ro, after doctor rebuild); every query call is a trace event validated by TLC against Mv2Core + Mv2Query contracts"})
+ENGINES.append({"name": "det", "path": "lib/eng_det.py", "serves_properties": ["C23"],
+                "kind_free_text": "each history executed twice in separate processes; paired recording validated by TLC (Mv2Core + twin equality)"})
 NOT_YET = "check not built yet in this revision of the machinery (see DESIGN.md §12 for the build order)"
 NOT_APPLICABLE = {
     "C30": "pure encode/decode fidelity of byte layouts (bincode TOC, header, footer, time index): a TLA+ model would have to re-implement the codecs; outside what state-machine specification decides (DESIGN.md §7)",
@@ -108,6 +110,13 @@ CLAIMED = {
     "C16": _query("Paged requests (page sizes 1..25, corpora with 48-90 matches so that the engine's candidate limit matters) are followed to the end: the concatenated pages must equal the one-request sequence (frame, range) and total_hits must be the same on every page.", "The total_hits inconsistency of the pinned tree is recorded as a known finding."),
     "C28": _query("The same battery (same query ids) is issued on the live handle after the commit, after reopen read-write, after reopen read-only and after a doctor rebuild of all indexes: for an unchanged frame table the hit sets (distance sequences for vector search) must be equal; searches issued between put and commit must satisfy the soundness contract on the table including the pending window."),
     "C40": _query("Corpora are ingested through plain puts + commit, through begin_batch(options: skip_sync, disable_auto_checkpoint, compression level, WAL pre-size)/end_batch + commit, and through several commit_skip_indexes followed by finalize_indexes (with and without a final commit). The bulk calls are actions of Mv2Core with the same effect on the frame table as plain puts; every observation of those memories - frame table, payload ids, embeddings, timeline, vector probes, single-word recall, boolean-query soundness, exact k-NN, live and after reopen, verify - must satisfy the same contracts as for plain ingestion; any failure in a bulk history is attributed to this property."),
+    "C23": {
+        "engine": "det",
+        "technique": "self-composition: each history executed twice (separate processes, fresh paths); the paired recording is validated by TLC against the TLA+ specification Mv2Core with the twin-equality condition at every call",
+        "text": "Every history (seeded random put/update/delete/commit/reopen/vacuum/doctor/ticket sequences and a query corpus with its battery) is executed twice; TLC validates the first execution against Mv2Core and, at every call, requires the second execution's result and full logical observation (frame table with payload ids, embeddings, links, descriptive fields, log numbers, ticket, stats, query hits) to be identical; file digests after every call are compared too.",
+        "note": "Byte identity fails on the pinned tree (known finding F23-bytes-differ); logical identity is what the check enforces. Trusts TLC and the harness projection.",
+        "design_ref": "DESIGN.md §6 C23",
+    },
     "C05": {
         "engine": "walring",
         "technique": "TLA+ cell-level model (WalRing) exhaustively checked by TLC + refinement to WalAbs; every TLC transition replayed on the real EmbeddedWal; recorded real runs validated against WalAbs by TLC",
